@@ -49,7 +49,9 @@ RULE = (
     "and direction, twinned with contiguous copies. Ownership histories: after fit on C-contiguous float64 arrays (1-D / 2-D data, table "
     "views as coordinates) the caller detrends / reuses / negates the data buffer, shifts / overwrites the coordinates and scribbles on a "
     "returned prediction, then predicts with the earlier fitted gridder. "
-    "Lazily evaluated grids: Datasets whose variables are dask-backed (chunk(), chunked along northing / easting / both, one float variable "
+    "Coordinate arrays with 3 and 4 dimensions (meshgrid(easting, northing, upward[, time]) nodes, random arrays; C / Fortran order, transposed "
+    "views) as distance_mask queries (with and without projection) and data points, KNeighbors queries and fit inputs, median_distance input, "
+    "each twinned with the raveled call. Lazily evaluated grids: Datasets whose variables are dask-backed (chunk(), chunked along northing / easting / both, one float variable "
     "chunked and the others in memory; integer variables included): every variable of the result, computed, is NaN exactly where the "
     "array-form mask is False; the input grid (values, laziness, chunks, attrs) is untouched; Dataset and variable attrs are kept. "
     "KNeighbors: k in {1,2,3,n-1,n,random}, reductions mean/median/min/max (+sum/ptp), data values unique per point, queries inside, "
@@ -147,7 +149,7 @@ FLOORS = {
         "eval:aliasing_twin.median_distance": 43, "eval:KNeighbors.state_owned_by_estimator": 85, "aliasing:columns_0_1": 30,
         "aliasing:columns_1_0_northing_stored_first": 60, "aliasing:columns_of_a_wider_table": 30,
         "aliasing:fortran_ordered_table": 28, "aliasing:fortran_ordered_table_northing_first": 28,
-        "aliasing:last_axis_of_a_3d_table": 85, "aliasing:reversed_rows": 27, "aliasing:unpacked_transpose_northing_first": 30,
+        "aliasing:last_axis_of_a_3d_table": 99, "aliasing:reversed_rows": 27, "aliasing:unpacked_transpose_northing_first": 30,
         "ownership:caller_detrend_data": 8, "ownership:caller_negate_data": 8, "ownership:caller_reuse_data_buffer": 7,
         "ownership:caller_overwrite_coordinates": 11, "ownership:caller_shift_coordinates": 12,
         "ownership:caller_scribble_on_prediction": 24, "ownership:2d_data": 5, "ownership:coordinates_are_views_of_one_table": 9,
@@ -158,7 +160,14 @@ FLOORS = {
         "grid_lazy:chunk_easting": 20, "grid_lazy:chunk_both_dims": 20, "grid_lazy:one_variable_chunked_others_in_memory": 18,
         "defaulted_argument:KNeighbors.__init__.k": 82, "defaulted_argument:KNeighbors.__init__.reduction": 154,
         "defaulted_argument:distance_mask.projection": 47, "defaulted_argument:median_distance.k_nearest": 56,
-        "eval:KNeighbors.constructor_defaults": 948,
+        "eval:KNeighbors.constructor_defaults": 948, "class:knn_predict_after_fit_on_3d_arrays": 8,
+        "class:knn_predict_after_fit_on_4d_arrays": 5, "class:knn_query_3d": 8, "class:knn_query_4d": 5,
+        "class:mask_data_coordinates_3d": 8, "class:mask_data_coordinates_4d": 5, "class:mask_query_3d": 16,
+        "class:mask_query_3d_with_projection": 8, "class:mask_query_4d": 11, "class:mask_query_4d_with_projection": 5,
+        "class:median_input_3d": 8, "class:median_input_4d": 5, "nd:layout_c_order": 4, "nd:layout_fortran_order": 4,
+        "nd:layout_transposed_view": 4, "nd:meshgrid_nodes_3d": 3, "nd:meshgrid_nodes_4d": 1, "nd:random_3d": 4,
+        "nd:random_4d": 4, "ownership:table_last_axis_of_a_3d_table": 1, "eval:nd_twin.KNeighbors.predict": 14,
+        "eval:nd_twin.distance_mask": 28, "eval:nd_twin.median_distance": 14,
     },
     "thorough": {
         "eval:KNeighbors.predict": 25500, "eval:median_distance": 5400, "eval:distance_mask.array": 7650,
@@ -228,7 +237,7 @@ FLOORS = {
         "eval:aliasing_twin.median_distance": 645, "eval:KNeighbors.state_owned_by_estimator": 1275, "aliasing:columns_0_1": 450,
         "aliasing:columns_1_0_northing_stored_first": 900, "aliasing:columns_of_a_wider_table": 450,
         "aliasing:fortran_ordered_table": 420, "aliasing:fortran_ordered_table_northing_first": 420,
-        "aliasing:last_axis_of_a_3d_table": 1275, "aliasing:reversed_rows": 405,
+        "aliasing:last_axis_of_a_3d_table": 1485, "aliasing:reversed_rows": 405,
         "aliasing:unpacked_transpose_northing_first": 450, "ownership:caller_detrend_data": 120,
         "ownership:caller_negate_data": 120, "ownership:caller_reuse_data_buffer": 105,
         "ownership:caller_overwrite_coordinates": 165, "ownership:caller_shift_coordinates": 180,
@@ -241,6 +250,14 @@ FLOORS = {
         "grid_lazy:one_variable_chunked_others_in_memory": 270, "defaulted_argument:KNeighbors.__init__.k": 1230,
         "defaulted_argument:KNeighbors.__init__.reduction": 2310, "defaulted_argument:distance_mask.projection": 705,
         "defaulted_argument:median_distance.k_nearest": 840, "eval:KNeighbors.constructor_defaults": 14220,
+        "class:knn_predict_after_fit_on_3d_arrays": 120, "class:knn_predict_after_fit_on_4d_arrays": 75,
+        "class:knn_query_3d": 120, "class:knn_query_4d": 75, "class:mask_data_coordinates_3d": 120,
+        "class:mask_data_coordinates_4d": 75, "class:mask_query_3d": 240, "class:mask_query_3d_with_projection": 120,
+        "class:mask_query_4d": 165, "class:mask_query_4d_with_projection": 75, "class:median_input_3d": 120,
+        "class:median_input_4d": 75, "nd:layout_c_order": 60, "nd:layout_fortran_order": 60, "nd:layout_transposed_view": 60,
+        "nd:meshgrid_nodes_3d": 45, "nd:meshgrid_nodes_4d": 15, "nd:random_3d": 60, "nd:random_4d": 60,
+        "ownership:table_last_axis_of_a_3d_table": 15, "eval:nd_twin.KNeighbors.predict": 210, "eval:nd_twin.distance_mask": 420,
+        "eval:nd_twin.median_distance": 210,
     },
 }
 JOBS = {"quick": 1, "thorough": 8}
@@ -254,8 +271,8 @@ EPS = ref.EPS
 
 def plan(tier):
     if tier == "quick":
-        return collections.OrderedDict(knn=360, knn_nested=60, median=300, mask=300, mask_grid=300, mask_exact=200, knn_copies=60, knn_ownership=60, large=2)
-    return collections.OrderedDict(knn=5400, knn_nested=900, median=4500, mask=4500, mask_grid=4500, mask_exact=3000, knn_copies=900, knn_ownership=900, large=16)
+        return collections.OrderedDict(knn=360, knn_nested=60, median=300, mask=300, mask_grid=300, mask_exact=200, knn_copies=60, knn_ownership=60, nd_arrays=40, large=2)
+    return collections.OrderedDict(knn=5400, knn_nested=900, median=4500, mask=4500, mask_grid=4500, mask_exact=3000, knn_copies=900, knn_ownership=900, nd_arrays=600, large=16)
 
 
 # ----------------------------------------------------------------------
@@ -669,6 +686,8 @@ def install(tap, run):
         run.evaluated("KNeighbors.predict")
         run.count("class:knn_k=%s" % ("1" if k == 1 else "n" if k == n else "n-1" if k == n - 1 else "2..n-2"))
         run.count("class:knn_query_%dd" % q0.ndim)
+        if snap.get("ndim", 1) >= 3:
+            run.count("class:knn_predict_after_fit_on_%dd_arrays" % snap["ndim"])
         if container_class(coords[0]) != "ndarray":
             run.count("class:knn_query_container_" + container_class(coords[0]))
         if q0.size == 1:
@@ -917,6 +936,10 @@ def install(tap, run):
         run.evaluated("distance_mask." + form)
         if np.ndim(dc[0]) == 0:
             run.count("class:mask_scalar_data_point")
+        if np.ndim(dc[0]) >= 3:
+            run.count("class:mask_data_coordinates_%dd" % np.ndim(dc[0]))
+        if q0.ndim >= 3 and projection is not None:
+            run.count("class:mask_query_%dd_with_projection" % q0.ndim)
         if len(dc) > 2 or (coords is not None and len(coords) > 2):
             run.count("class:mask_extra_coordinates")
         run.count("class:mask_query_%dd" % q0.ndim)
@@ -1959,6 +1982,71 @@ def _knn_ownership_case(run, verde, rng):
     run.sample("knn_ownership", {"n_points": n, "data_shape": list(data.shape), "k": k, "reduction": reduction.__name__, "prediction": first})
 
 
+def _nd_arrays_case(run, verde, rng):
+    """
+    Coordinate arrays with three or four dimensions (nodes of meshgrid(easting, northing, upward), random 3-D / 4-D arrays;
+    C order, Fortran order, transposed views): results have the arrays' shape and equal the result for the raveled arrays.
+    """
+    n = max(_n_points(rng, 2, 120), 3)
+    east, north = gen.cloud(rng, n)
+    data = _unique_data(rng, n)
+    w, e, s, nn = east.min(), east.max(), north.min(), north.max()
+    wid, hei = (e - w) or 1.0, (nn - s) or 1.0
+    if rng.random() < 0.4:
+        ev = np.linspace(w - 0.1 * wid, e + 0.1 * wid, int(rng.integers(2, 7)))
+        nv = np.linspace(s - 0.1 * hei, nn + 0.1 * hei, int(rng.integers(2, 6)))
+        up = np.linspace(0, 100, int(rng.integers(2, 5)))
+        mesh = np.meshgrid(ev, nv, up) if rng.random() < 0.5 else np.meshgrid(ev, nv, up, np.arange(int(rng.integers(2, 4))), indexing="ij")
+        qe, qn, extra = mesh[0], mesh[1], mesh[2]
+        run.count("nd:meshgrid_nodes_%dd" % qe.ndim)
+    else:
+        shape = tuple(int(v) for v in rng.integers(2, 6, int(rng.integers(3, 5))))
+        qe = rng.uniform(w - 0.2 * wid, e + 0.2 * wid, shape)
+        qn = rng.uniform(s - 0.2 * hei, nn + 0.2 * hei, shape)
+        extra = rng.normal(size=shape)
+        run.count("nd:random_%dd" % qe.ndim)
+    layout = int(rng.integers(0, 3))
+    if layout == 1:
+        qe, qn, extra = (np.asfortranarray(a) for a in (qe, qn, extra))
+    elif layout == 2:  # transposed (non-contiguous) views of C-ordered arrays
+        axes = tuple(int(v) for v in rng.permutation(qe.ndim))
+        qe, qn, extra = (np.ascontiguousarray(a.transpose(np.argsort(axes))).transpose(axes) for a in (qe, qn, extra))
+    run.count("nd:layout_" + ["c_order", "fortran_order", "transposed_view"][layout])
+    query = (qe, qn, extra) if rng.random() < 0.3 else (qe, qn)
+    flat = tuple(np.ravel(a) for a in query)
+    label = "%d-D arrays instead of their raveled form" % qe.ndim
+    # distance_mask, queries n-D, without and with projection
+    nearest = nearest_distance(np.ravel(qe), np.ravel(qn), east, north)
+    maxdist = _maxdist_choice(rng, nearest)
+    out = verde.distance_mask((east, north), maxdist, coordinates=query)
+    _twin(run, "distance_mask", np.ravel(out), verde.distance_mask((east, north), maxdist, coordinates=flat), monitor="nd_twin", label=label)
+    projection = _projection(rng, np.concatenate([east, np.ravel(qe)]), np.concatenate([north, np.ravel(qn)])) or Aniso(2.0, 0.5)
+    pq, pd = projection(np.ravel(qe), np.ravel(qn)), projection(east, north)
+    maxdist_p = _maxdist_choice(rng, nearest_distance(np.ravel(pq[0]), np.ravel(pq[1]), np.ravel(pd[0]), np.ravel(pd[1])))
+    outp = verde.distance_mask((east, north), maxdist_p, coordinates=query, projection=projection)
+    _twin(run, "distance_mask", np.ravel(outp), verde.distance_mask((east, north), maxdist_p, coordinates=flat, projection=projection),
+          monitor="nd_twin", label=label)
+    # KNeighbors: n-D queries; fit on n-D coordinates and data
+    k = _k_choice(rng, n)
+    reduction = REDUCTIONS[int(rng.integers(0, len(REDUCTIONS)))]
+    est = verde.KNeighbors(k=k, reduction=reduction).fit((east, north), data)
+    pred = est.predict(query)
+    _twin(run, "KNeighbors.predict", np.ravel(pred), est.predict(flat), monitor="nd_twin", label=label)
+    nd_data = _unique_data(rng, qe.size).reshape(qe.shape)
+    if layout == 1:
+        nd_data = np.asfortranarray(nd_data)
+    k2 = _k_choice(rng, qe.size)
+    est2 = verde.KNeighbors(k=k2, reduction=reduction).fit(query, nd_data)
+    est2.predict((east, north))
+    # median_distance on the n-D arrays; distance_mask with n-D data coordinates
+    km = int(min(max(int(rng.choice([1, 2, 3, qe.size - 1])), 1), qe.size - 1))
+    med = verde.median_distance(query, k_nearest=km)
+    _twin(run, "median_distance", np.ravel(med), verde.median_distance(flat, k_nearest=km), monitor="nd_twin", label=label)
+    verde.distance_mask(query, maxdist, coordinates=(east, north))
+    run.sample("nd_arrays", {"query_shape": list(qe.shape), "layout": layout, "maxdist": maxdist, "projection": repr(projection), "k": k,
+                             "mask_kept": int(np.sum(out)), "prediction_shape": list(np.shape(pred))})
+
+
 def _large_case(run, verde, rng, index):
     """Large counts judged by brute force instead of by the absence of an exception."""
     if index % 2 == 0:
@@ -2005,6 +2093,8 @@ def run_case(run, tap, stream, index, rng):
         _knn_copies_case(run, verde, rng)
     elif stream == "knn_ownership":
         _knn_ownership_case(run, verde, rng)
+    elif stream == "nd_arrays":
+        _nd_arrays_case(run, verde, rng)
     elif stream == "large":
         _large_case(run, verde, rng, index)
     else:
